@@ -12,6 +12,8 @@ From Coq Require Import List NArith.
 From Pika Require Import Base.Conc Base.Agent Gen.GenEnums Model.Sched Model.WeakAgent Proofs.SchedProofs
   Proofs.SchedWakeProofs Proofs.SchedRecycleProofs Proofs.SchedDeltaProofs Proofs.SchedAbortProofs
   Proofs.SchedAcceptProofs Proofs.WeakAgentProofs.
+From Pika Require Model.Mutex Model.CondVar Model.Semaphore Model.Latch Model.Event Model.Once Model.Join
+  Proofs.AgentUseProofs.
 Import ListNotations.
 
 (* reachable /\ stuck (nothing can move any more; the pool has at least one worker) => no task is
@@ -179,6 +181,13 @@ Theorem C02_sched_refines_weak_agent : forall sched ext,
 Proof. exact sched_refines_weak_agent_full. Qed.
 Print Assumptions C02_sched_refines_weak_agent.
 
+(* in particular, per task incarnation: the events of incarnation i along any run replay in the
+   machine (every label is enabled when it occurs) and lead to the abstraction of i's state *)
+Theorem C02_sched_incarnation_behaviour : forall sched ext i,
+  wa_replay (wa_proj i (sched_trace sched ext)) wa_init_task = Some (wa_abs (fst (sched_run sched ext)) i).
+Proof. exact sched_incarnation_replay. Qed.
+Print Assumptions C02_sched_incarnation_behaviour.
+
 (* W1 in the machine: a blocked task can be woken at any time *)
 Theorem C02_weak_agent_wake_any_time : forall c t,
   wmode (c t) = MBlk -> exists c', wa_step (KWake, t) c c'.
@@ -211,18 +220,23 @@ Proof. exact sched_no_lost_resume. Qed.
 Print Assumptions C02_sched_no_lost_resume.
 
 (* Base/Agent.v read in the machine (ag_abs: blocked -> MBlk / MRun; the token is NOT part of the
-   weak state; greg / gowed are ghosts: registration is the primitive's own queue).  Each operation
-   of the interface, issued when it may be (the thread itself acts only while not blocked), stands
-   for the weak-agent steps ag_kinds:
+   weak state; greg / gowed are ghosts: registration is the primitive's own queue).  ag_fun op is
+   literally the function of Base/Agent.v the operation applies.  Each operation (total: the only
+   side condition is that a thread registers while it is not blocked; ag_wf = a blocked agent holds
+   no token) stands for the weak-agent steps ag_kinds:
      a_suspend  Returned -> Susp; Wake (possibly spurious)     Blocked -> Susp
      a_resume   of a blocked agent -> Res; Wake                of a running one -> Res (token kept)
-     stale resume (OSpur / CSpur / ESpur / StaleResume / AResume = a_resume again)
+     stale resume (OSpur / CSpur / ESpur / StaleResume / AResume: a_resume again, or the literal
+                {| tok := true; blocked := false |})
                 of a blocked agent -> a spurious Wake          of a running one -> nothing (token)
      a_phase_end -> Yield                                      registration -> Reg
-   and it preserves ag_w2: an owed wake-up is held as the token of a running agent *)
+     (a_suspend / a_phase_end applied to a blocked agent: nothing)
+   and it preserves ag_wf and ag_w2: an owed wake-up is held as the token of a running agent *)
 Theorem C02_agent_interface_is_weak_agent : forall op s,
-  ag_pre op s ->
+  ag_pre op s -> ag_wf s ->
+  ag (ag_step op s) = ag_fun op (ag s) /\
   wa_replay (ag_kinds op s) (ag_abs s) = Some (ag_abs (ag_step op s)) /\
+  ag_wf (ag_step op s) /\
   (ag_w2 s -> ag_w2 (ag_step op s)).
 Proof. exact agent_interface_is_weak_agent. Qed.
 Print Assumptions C02_agent_interface_is_weak_agent.
@@ -235,6 +249,39 @@ Theorem C02_agent_runs_are_weak_agent_runs : forall ops s ks,
   ~ (blocked (ag s) = true /\ gowed s = true) /\ ~ lost_pattern ks.
 Proof. exact agent_runs_weak_agent. Qed.
 Print Assumptions C02_agent_runs_are_weak_agent_runs.
+
+(* "as used by the primitive models": one step of each of the seven models changes the
+   agent_state of any thread u by exactly one operation of the interface (ag_iface_upd a a' :=
+   exists op, a' = ag_fun op a; OpReg is the identity), whatever the oracle, the thread and the
+   state — C06 mutex, C07 condition variable, C08 semaphore, C09 latch / event / call_once, C13 join *)
+Theorem C02_primitive_models_use_the_interface :
+  (forall late t g l u, ag_iface_upd (Mutex.ag g u) (Mutex.ag (fst (Mutex.mx_tstep late t g l)) u)) /\
+  (forall isos late t g l u, ag_iface_upd (CondVar.cag g u) (CondVar.cag (fst (CondVar.cv_tstep isos late t g l)) u)) /\
+  (forall kind passed t g l u,
+     ag_iface_upd (Semaphore.ag g u) (Semaphore.ag (fst (Semaphore.sem_tstep kind passed t g l)) u)) /\
+  (forall fixed o t g l u, ag_iface_upd (Latch.ag g u) (Latch.ag (fst (Latch.latch_tstep fixed o t g l)) u)) /\
+  (forall o t g l u,
+     ag_iface_upd (Event.eag (Event.est g) u) (Event.eag (Event.est (fst (Event.e_tstep o t g l))) u)) /\
+  (forall o t g l u,
+     ag_iface_upd (Event.eag (Once.oev g) u) (Event.eag (Once.oev (fst (Once.o_tstep o t g l))) u)) /\
+  (forall lp tgt x t g l u, ag_iface_upd (Join.ag g u) (Join.ag (fst (Join.tstep lp tgt x t g l)) u)).
+Proof. exact AgentUseProofs.primitive_models_use_the_interface. Qed.
+Print Assumptions C02_primitive_models_use_the_interface.
+
+(* ... hence, for ANY model over Base/Conc.v whose steps change agents only through the interface:
+   along every run the agent of every thread goes through a sequence of interface operations, and
+   that sequence is a behaviour of the weak agent machine (in the run derived here nothing is ever
+   registered; C02_agent_runs_are_weak_agent_runs covers every way of inserting registrations) *)
+Theorem C02_model_agent_is_weak_agent :
+  forall (G L O : Type) (tstep : O -> nat -> G -> L -> G * L) (agf : G -> nat -> agent_state),
+  (forall o t g l u, ag_iface_upd (agf g u) (agf (fst (tstep o t g l)) u)) ->
+  forall sched c u, agf (fst c) u = a_init ->
+  exists ops s ks,
+    ag_runs ops ag_init s ks /\ ag s = agf (fst (run tstep sched c)) u /\
+    wa_replay ks wa_init_task = Some (ag_abs s) /\ ag_w2 s /\
+    ~ (blocked (ag s) = true /\ gowed s = true) /\ ~ lost_pattern ks.
+Proof. exact AgentUseProofs.model_agent_is_weak_agent. Qed.
+Print Assumptions C02_model_agent_is_weak_agent.
 
 (* non-vacuity: a run of the scheduler model whose projection exercises Reg, Res, Susp, Wake — the
    first Wake is the owed one, the second is spurious (the resume found T running and not
